@@ -1296,11 +1296,14 @@ fn step_inner(ex: &mut Exec, st: &mut L1State, op: &str, toks: &[&str]) -> Optio
                 }
             }
         }
-        "lag.new" if toks.len() == 2 => {
+        "lag.new" | "o.lagc.new" if toks.len() == 2 => {
             let inst = st.inst.as_ref()?;
             let k: u64 = toks[1].parse().ok()?;
             // item lifetime 2 ms: node records expire between operations, the epoch record never does
-            let mgr = StorageManager::new(inst.db.clone(), Some(std::time::Duration::from_millis(2)), None, Some(std::time::Duration::from_millis(2)));
+            // (`o.lagc.*`: a reader whose cached records live for an hour — what it answers depends on what it happens to
+            // hold, so these lines are judged by the C13 oracle alone: error, or a published pair with a verifying proof)
+            let life = if op == "lag.new" { std::time::Duration::from_millis(2) } else { std::time::Duration::from_secs(3600) };
+            let mgr = StorageManager::new(inst.db.clone(), Some(life), None, Some(life));
             let vrf = HardCodedAkdVRF {};
             let dir = match inst.cfg.as_str() {
                 "wv1" => AnyRo::W(st.rt.block_on(akd::directory::ReadOnlyDirectory::<Wv1, _, _>::new(mgr, vrf, st.parallelism)).ok()?),
@@ -1316,11 +1319,20 @@ fn step_inner(ex: &mut Exec, st: &mut L1State, op: &str, toks: &[&str]) -> Optio
                 Err(_) => "err".into(),
             })
         }
-        "lag.epochhash" | "lag.lookup" | "lag.history" | "lag.audit" if toks.len() >= 2 => {
+        "lag.epochhash" | "lag.lookup" | "lag.history" | "lag.audit" | "o.lagc.epochhash" | "o.lagc.lookup" | "o.lagc.history" | "o.lagc.audit"
+            if toks.len() >= 2 =>
+        {
             let inst = st.inst.as_ref()?;
             let k: u64 = toks[1].parse().ok()?;
             let reader = st.readers.get(&k)?;
             std::thread::sleep(std::time::Duration::from_millis(5));
+            let op: &str = match op {
+                "o.lagc.epochhash" => "lag.epochhash",
+                "o.lagc.lookup" => "lag.lookup",
+                "o.lagc.history" => "lag.history",
+                "o.lagc.audit" => "lag.audit",
+                o => o,
+            };
             // oracle (C13): an answer names an (epoch, root hash) pair the directory really published …
             let check_pair = |ex: &mut Exec, e: u64, h: &[u8; 32]| {
                 if inst.roots.get(&e) != Some(h) {
